@@ -30,14 +30,14 @@ Section RawP.
   (* a corrupted (stale, truncated, foreign) cached copy is detected, removed and replaced *)
   Lemma corrupt_cache_healed t C B pre rest :
     auto_cache t = true -> hash_ok C = false -> hash_ok B = true ->
-    load_raw hash_ok t (mkSt (Some C) false) no_renv (mkCall pre (Some B) ENone :: rest)
+    load_raw hash_ok t (mkSt (Some C) false) no_renv (mkCall pre (Some B) ENone false :: rest)
     = (ROk B, mkSt (Some B) true, rest, true).
   Proof.
     intros Ha HC HB. unfold load_raw, load, load_from_cache, cache_file, forget.
     destruct t; try discriminate Ha;
-      cbn [can_cache auto_cache negb s_cache s_forgotten no_renv e_p1a e_p3 e_p4 e_p1b env_apply b_ans b_post];
+      cbn [can_cache auto_cache negb s_cache s_forgotten no_renv e_p1a e_p3 e_p4 e_p1b env_apply b_ans b_post b_late];
       rewrite ?slice_all; cbn [fst snd]; rewrite ?HC;
-      cbn [can_cache auto_cache negb env_apply b_ans b_post]; rewrite ?slice_all; rewrite ?HB; reflexivity.
+      cbn [can_cache auto_cache negb env_apply b_ans b_post b_late]; rewrite ?slice_all; rewrite ?HB; reflexivity.
   Qed.
 
   (* circuit breaker: once a handle has been forgotten, Forget never removes its cached file again *)
@@ -77,6 +77,7 @@ Qed.
 
 Definition want (truth : bytes) (len off : nat) : lres :=
   match slice truth len off with Some d => LOk d | None => LErr end.
+Definition res_fine (truth : bytes) (len off : nat) (r : lres) : Prop := r = want truth len off \/ r = LErr.
 
 Lemma cache_clean_cases truth c : cache_clean truth c = true -> c = None \/ c = Some truth.
 Proof.
@@ -84,14 +85,105 @@ Proof.
   apply bytes_eqb_true in H. subst. reflexivity.
 Qed.
 
+Lemma call_clean_inv truth k : call_clean truth k = true ->
+  env_clean truth (b_pre k) = true /\ env_clean truth (b_post k) = true /\ b_late k = false /\ b_ans k = Some truth.
+Proof.
+  unfold call_clean. intros H.
+  apply andb_true_iff in H as [H1 H]. apply andb_true_iff in H as [H2 H]. apply andb_true_iff in H as [H3 H4].
+  repeat split; try assumption.
+  - destruct (b_late k); [discriminate|reflexivity].
+  - destruct (b_ans k) as [x|]; [|discriminate]. apply bytes_eqb_true in H4. subst; reflexivity.
+Qed.
+
+Lemma call_honest_inv truth k : call_honest truth k = true ->
+  env_clean truth (b_pre k) = true /\ env_clean truth (b_post k) = true
+  /\ (b_ans k = None \/ (exists x, b_ans k = Some x /\ b_late k = true) \/ (b_ans k = Some truth /\ b_late k = false)).
+Proof.
+  unfold call_honest. intros H.
+  apply andb_true_iff in H as [H1 H]. apply andb_true_iff in H as [H2 H3].
+  repeat split; try assumption.
+  destruct (b_ans k) as [x|]; [|left; reflexivity]. right.
+  destruct (b_late k); [left; exists x; split; reflexivity|right].
+  apply bytes_eqb_true in H3. subst. split; reflexivity.
+Qed.
+
+Lemma call_clean_honest truth k : call_clean truth k = true -> call_honest truth k = true.
+Proof.
+  intros H. destruct (call_clean_inv truth k H) as [H1 [H2 [H3 H4]]].
+  unfold call_honest. rewrite H1, H2, H3, H4. cbn [andb]. apply bytes_eqb_refl.
+Qed.
+
+(* one backend load in an honest environment *)
+Lemma be_plain_honest truth script len off c r c' rest :
+  forallb (call_honest truth) script = true -> cache_clean truth c = true ->
+  be_plain script len off c = (r, c', rest) ->
+  res_fine truth len off r /\ cache_clean truth c' = true /\ forallb (call_honest truth) rest = true.
+Proof.
+  intros Hs Hc E. unfold be_plain in E. destruct script as [|k rest0].
+  - inversion E; subst. repeat split; [right; reflexivity|exact Hc].
+  - cbn [forallb] in Hs. apply andb_true_iff in Hs as [Hk Hr].
+    destruct (call_honest_inv truth k Hk) as [Hpre [Hpost Hans]].
+    pose proof (env_clean_keeps truth (b_pre k) c Hpre Hc) as Hc1.
+    destruct Hans as [Ha | [[x [Ha Hl]] | [Ha Hl]]]; rewrite Ha in E; try rewrite Hl in E; inversion E; subst.
+    + repeat split; [right; reflexivity|exact Hc1|exact Hr].
+    + repeat split; [right; reflexivity|apply env_clean_keeps; assumption|exact Hr].
+    + repeat split; [left; reflexivity|apply env_clean_keeps; assumption|exact Hr].
+Qed.
+
+Lemma cache_file_honest truth c script ok c' rest :
+  forallb (call_honest truth) script = true -> cache_clean truth c = true ->
+  cache_file c script = (ok, c', rest) ->
+  cache_clean truth c' = true /\ forallb (call_honest truth) rest = true.
+Proof.
+  intros Hs Hc E. unfold cache_file in E. destruct c as [x|].
+  - inversion E; subst. split; assumption.
+  - destruct script as [|k rest0]; [inversion E; subst; split; reflexivity|].
+    cbn [forallb] in Hs. apply andb_true_iff in Hs as [Hk Hr].
+    destruct (call_honest_inv truth k Hk) as [Hpre [Hpost Hans]].
+    destruct Hans as [Ha | [[x [Ha Hl]] | [Ha Hl]]]; rewrite Ha in E; try rewrite Hl in E; inversion E; subst.
+    + split; [reflexivity|exact Hr].
+    + split; [reflexivity|exact Hr].
+    + split; [apply env_clean_keeps; [exact Hpost|apply bytes_eqb_refl]|exact Hr].
+Qed.
+
+Lemma load_from_cache_clean truth t c len off inc r :
+  cache_clean truth c = true -> load_from_cache t c len off = (inc, r) ->
+  inc = true -> r = want truth len off.
+Proof.
+  intros Hc E Hi. unfold load_from_cache in E.
+  destruct (negb (can_cache t)); [inversion E; subst; discriminate|].
+  destruct (cache_clean_cases truth c Hc) as [-> | ->]; [inversion E; subst; discriminate|].
+  unfold want. destruct (slice truth len off); inversion E; reflexivity.
+Qed.
+
+(* cacheBackend.Load in an honest environment: the backend's answer or an error, never other
+   bytes, and the cache stays clean -- for every type, range, cache state and script *)
+Lemma load_honest truth t len off c p1 script r c' rest :
+  cache_clean truth c = true -> env_clean truth p1 = true -> forallb (call_honest truth) script = true ->
+  load t len off c p1 script = (r, c', rest) ->
+  res_fine truth len off r /\ cache_clean truth c' = true /\ forallb (call_honest truth) rest = true.
+Proof.
+  intros Hc Hp Hs E. unfold load in E.
+  destruct (load_from_cache t c len off) as [inc r0] eqn:E0.
+  destruct inc.
+  - inversion E; subst. repeat split; [left; eapply load_from_cache_clean; eauto|exact Hc|exact Hs].
+  - destruct (negb (auto_cache t)); [eapply be_plain_honest; eassumption|].
+    pose proof (env_clean_keeps truth p1 c Hp Hc) as Hc1.
+    destruct (cache_file (env_apply p1 c) script) as [[ok c2] s2] eqn:E1.
+    destruct (cache_file_honest truth _ _ _ _ _ Hs Hc1 E1) as [Hc2 Hs2].
+    destruct ok.
+    + destruct (load_from_cache t c2 len off) as [inc2 r2] eqn:E2. destruct inc2.
+      * inversion E; subst. repeat split; [left; eapply load_from_cache_clean; eauto|exact Hc2|exact Hs2].
+      * eapply be_plain_honest; eassumption.
+    + inversion E; subst. repeat split; [right; reflexivity|exact Hc2|exact Hs2].
+Qed.
+
 Lemma be_plain_clean truth k rest len off c :
   call_clean truth k = true -> cache_clean truth c = true ->
   exists c', be_plain (k :: rest) len off c = (want truth len off, c', rest) /\ cache_clean truth c' = true.
 Proof.
-  intros Hk Hc. unfold call_clean in Hk.
-  apply andb_true_iff in Hk as [Hpre Hk]. apply andb_true_iff in Hk as [Hpost Hans].
-  unfold be_plain. destruct (b_ans k) as [x|]; [|discriminate].
-  apply bytes_eqb_true in Hans. subst x.
+  intros Hk Hc. destruct (call_clean_inv truth k Hk) as [Hpre [Hpost [Hl Ha]]].
+  unfold be_plain. rewrite Ha, Hl.
   eexists. split; [reflexivity|]. apply env_clean_keeps; [exact Hpost|]. apply env_clean_keeps; assumption.
 Qed.
 
@@ -108,9 +200,7 @@ Proof.
       destruct (auto_cache t) eqn:Eac; cbn [negb].
       * pose proof (env_clean_keeps truth p1 None Hp eq_refl) as Hc1.
         destruct (cache_clean_cases truth _ Hc1) as [E | E]; rewrite E; cbn [cache_file].
-        -- pose proof Hk1 as Hk1'. unfold call_clean in Hk1'.
-           apply andb_true_iff in Hk1' as [Hpre Hk1']. apply andb_true_iff in Hk1' as [Hpost Hans].
-           destruct (b_ans k1) as [x|]; [|discriminate]. apply bytes_eqb_true in Hans; subst x.
+        -- destruct (call_clean_inv truth k1 Hk1) as [Hpre [Hpost [Hl Ha]]]. rewrite Ha, Hl.
            pose proof (env_clean_keeps truth (b_post k1) (Some truth) Hpost (bytes_eqb_refl truth)) as Hc2.
            destruct (cache_clean_cases truth _ Hc2) as [E2 | E2]; rewrite E2.
            ++ destruct (be_plain_clean truth k2 rest len off None Hk2 eq_refl) as [c' [Hb Hcc]].
@@ -126,16 +216,56 @@ Proof.
     rewrite Hb. eauto.
 Qed.
 
+(* LoadRaw and whole operations keep the cache clean in an honest environment *)
+Lemma forget_clean truth t c f c' f' rm :
+  cache_clean truth c = true -> forget t c f = (c', f', rm) -> cache_clean truth c' = true.
+Proof.
+  intros Hc E. unfold forget in E. destruct f; [inversion E; subst; exact Hc|].
+  destruct (negb (can_cache t)); [inversion E; subst; exact Hc|].
+  destruct c; inversion E; subst; reflexivity.
+Qed.
+
+Lemma load_raw_honest truth hash_ok t st script r st' rest rm :
+  cache_clean truth (s_cache st) = true -> forallb (call_honest truth) script = true ->
+  load_raw hash_ok t st no_renv script = (r, st', rest, rm) ->
+  cache_clean truth (s_cache st') = true.
+Proof.
+  intros Hc Hs E. unfold load_raw in E. cbn [no_renv e_p1a e_p3 e_p4 e_p1b env_apply] in E.
+  destruct (load t 0 0 (s_cache st) ENone script) as [[r1 c1] s1] eqn:E1.
+  destruct (load_honest truth t 0 0 _ ENone script r1 c1 s1 Hc eq_refl Hs E1) as [_ [Hc1 Hs1]].
+  destruct (forget t c1 (s_forgotten st)) as [[c2 f2] removed] eqn:Ef.
+  pose proof (forget_clean truth t c1 _ c2 f2 removed Hc1 Ef) as Hc2.
+  destruct (load t 0 0 c2 ENone s1) as [[r2 c3] s2] eqn:E2.
+  destruct (load_honest truth t 0 0 _ ENone s1 r2 c3 s2 Hc2 eq_refl Hs1 E2) as [_ [Hc3 _]].
+  destruct t; try (destruct (match r1 with LOk b => hash_ok b | LErr => false end));
+    inversion E; subst; cbn [s_cache]; assumption.
+Qed.
+
+Lemma run_op_honest truth t st o ob st' :
+  cache_clean truth (s_cache st) = true -> op_honest truth o = true ->
+  run_op truth t st o = (ob, st') -> cache_clean truth (s_cache st') = true.
+Proof.
+  intros Hc Ho E. unfold op_honest in Ho. apply andb_true_iff in Ho as [Hb Hs].
+  pose proof (env_clean_keeps truth (o_before o) _ Hb Hc) as Hc0.
+  unfold run_op in E. destruct (o_kind o) as [|len off].
+  - destruct (load_raw _ _ _ _ _) as [[[r0 st0] rest] rm] eqn:El. inversion E; subst.
+    eapply load_raw_honest; [|exact Hs|exact El]. exact Hc0.
+  - destruct (load t len off _ ENone (o_script o)) as [[r0 c'] rest] eqn:El. inversion E; subst. cbn [s_cache].
+    destruct (load_honest truth t len off _ ENone (o_script o) r0 c' rest Hc0 eq_refl Hs El) as [_ [H _]]. exact H.
+Qed.
+
 (* ---------- oracle ---------- *)
 Lemma check_C38_iff c :
   check_C38 c = true <->
   raw_ok (c_truth c) (c_ops c) (c_obs c) = true
-  /\ clean_prefix_ok (c_truth c) (cache_clean (c_truth c) (c_cache0 c)) (c_ops c) (c_obs c) = true.
+  /\ clean_prefix_ok (c_truth c) (cache_clean (c_truth c) (c_cache0 c)) (c_ops c) (c_obs c) = true
+  /\ heal_ok (c_truth c) (c_type c) (mkSt (c_cache0 c) false) (c_ops c) (c_obs c) = true.
 Proof.
   unfold check_C38, oracle_code.
   destruct (raw_ok _ _ _); cbn [negb]; [|split; [discriminate|intros [H _]; discriminate]].
-  destruct (clean_prefix_ok _ _ _ _); cbn [negb]; split; try discriminate; auto.
-  intros [_ H]; discriminate.
+  destruct (clean_prefix_ok _ _ _ _); cbn [negb]; [|split; [discriminate|intros [_ [H _]]; discriminate]].
+  destruct (heal_ok _ _ _ _ _); cbn [negb]; split; try discriminate; auto.
+  intros [_ [_ H]]; discriminate.
 Qed.
 
 (* clause A read back: every LoadRaw that answered Ok answered the repository's bytes *)
@@ -167,22 +297,126 @@ Proof.
 Qed.
 
 
+(* the model's ranged Loads satisfy clause B over whole operation sequences *)
+Lemma ores_eqb_refl a : ores_eqb a a = true.
+Proof. destruct a; cbn [ores_eqb]; try apply bytes_eqb_refl; reflexivity. Qed.
+
+Lemma model_clean_ok truth t : forall ops st clean,
+  (clean = true -> cache_clean truth (s_cache st) = true) ->
+  clean_prefix_ok truth clean ops (run_ops truth t st ops) = true.
+Proof.
+  induction ops as [|o r IH]; intros st clean Hc; [reflexivity|].
+  cbn [run_ops]. destruct (run_op truth t st o) as [ob st'] eqn:E. cbn [clean_prefix_ok].
+  apply andb_true_iff. split.
+  - destruct (o_kind o) as [|len off] eqn:Ek; [reflexivity|].
+    destruct (andb clean (op_honest truth o)) eqn:Ecl; [|reflexivity].
+    apply andb_true_iff in Ecl as [Ecl Eho]. specialize (Hc Ecl).
+    pose proof Eho as Eho'. unfold op_honest in Eho'. apply andb_true_iff in Eho' as [Ebef Ehs].
+    pose proof (env_clean_keeps truth (o_before o) _ Ebef Hc) as Hc0.
+    unfold run_op in E. rewrite Ek in E.
+    destruct (load t len off _ ENone (o_script o)) as [[r0 c'] rest] eqn:El.
+    inversion E; subst ob st'; cbn [ob_res].
+    destruct (andb (op_clean truth o) (Nat.leb 2 (length (o_script o)))) eqn:Egood.
+    + apply andb_true_iff in Egood as [Eoc Elen].
+      unfold op_clean in Eoc. apply andb_true_iff in Eoc as [_ Escr].
+      destruct (o_script o) as [|k1 [|k2 rest0]] eqn:Es; try discriminate Elen.
+      cbn [forallb] in Escr. apply andb_true_iff in Escr as [Hk1 Escr]. apply andb_true_iff in Escr as [Hk2 _].
+      destruct (load_clean_transparent truth t len off _ ENone k1 k2 rest0 Hc0 eq_refl Hk1 Hk2) as [c2 [s2 [Hl _]]].
+      rewrite Hl in El. inversion El; subst. unfold want.
+      destruct (slice truth len off); apply ores_eqb_refl.
+    + destruct (load_honest truth t len off _ ENone (o_script o) r0 c' rest Hc0 eq_refl Ehs El) as [[Hr|Hr] _];
+        subst r0; unfold want.
+      * destruct (slice truth len off); rewrite ores_eqb_refl; reflexivity.
+      * apply orb_true_iff. right. reflexivity.
+  - apply IH. intros Hcl. apply andb_true_iff in Hcl as [Hcl Hop]. specialize (Hc Hcl).
+    eapply run_op_honest; eassumption.
+Qed.
+
+(* healing: with an unspent breaker and two calls that serve the true content, LoadRaw answers the
+   true bytes from ANY cache content *)
+Lemma want00 truth : want truth 0 0 = LOk truth.
+Proof. unfold want. rewrite slice_all. reflexivity. Qed.
+
+Lemma raw_heals truth t c k1 k2 rest :
+  t <> TConfig -> call_clean truth k1 = true -> call_clean truth k2 = true ->
+  exists st' s' rm, load_raw (bytes_eqb truth) t (mkSt c false) no_renv (k1 :: k2 :: rest) = (ROk truth, st', s', rm).
+Proof.
+  intros Ht Hk1 Hk2. unfold load_raw. cbn [no_renv e_p1a e_p3 e_p4 e_p1b env_apply s_cache s_forgotten].
+  assert (Hnone : exists c' s', load t 0 0 None ENone (k1 :: k2 :: rest) = (LOk truth, c', s')).
+  { destruct (load_clean_transparent truth t 0 0 None ENone k1 k2 rest eq_refl eq_refl Hk1 Hk2) as [c' [s' [H _]]].
+    rewrite want00 in H. eauto. }
+  destruct c as [x|].
+  - destruct (can_cache t) eqn:Ecc.
+    + (* cached copy is served first *)
+      assert (E1 : load t 0 0 (Some x) ENone (k1 :: k2 :: rest) = (LOk x, Some x, k1 :: k2 :: rest)).
+      { unfold load, load_from_cache. rewrite Ecc. cbn [negb]. rewrite slice_all. reflexivity. }
+      rewrite E1. destruct (bytes_eqb truth x) eqn:Ex.
+      * apply bytes_eqb_true in Ex. subst x. destruct t; try congruence; eauto.
+      * unfold forget. rewrite Ecc. cbn [negb].
+        destruct Hnone as [c' [s' Hn]]. rewrite Hn. rewrite bytes_eqb_refl.
+        destruct t; try congruence; eauto.
+    + (* not cacheable: straight to the backend *)
+      assert (Hac : auto_cache t = false) by (destruct t; try discriminate; reflexivity).
+      destruct (call_clean_inv truth k1 Hk1) as [_ [_ [Hl Ha]]].
+      assert (E1 : exists c', load t 0 0 (Some x) ENone (k1 :: k2 :: rest) = (LOk truth, c', k2 :: rest)).
+      { unfold load, load_from_cache. rewrite Ecc, Hac. cbn [negb]. unfold be_plain. rewrite Ha, Hl, slice_all. eauto. }
+      destruct E1 as [c' E1]. rewrite E1. rewrite bytes_eqb_refl. destruct t; try congruence; eauto.
+  - destruct Hnone as [c' [s' Hn]]. rewrite Hn. rewrite bytes_eqb_refl. destruct t; try congruence; eauto.
+Qed.
+
+Lemma model_heal_ok truth t : forall ops st, heal_ok truth t st ops (run_ops truth t st ops) = true.
+Proof.
+  induction ops as [|o r IH]; intros st; [reflexivity|].
+  cbn [run_ops heal_ok]. destruct (run_op truth t st o) as [ob st'] eqn:E.
+  rewrite IH, andb_true_r.
+  destruct (o_kind o) as [|len off] eqn:Ek; [|reflexivity].
+  destruct (andb (negb (is_config t)) _) eqn:Ec; [|reflexivity].
+  apply andb_true_iff in Ec as [Hcfg Ec]. apply andb_true_iff in Ec as [Hf Ec]. apply andb_true_iff in Ec as [Hs Hlen].
+  assert (Ht : t <> TConfig) by (intros ->; discriminate).
+  destruct (s_forgotten st) eqn:Ef; [discriminate|].
+  destruct (o_script o) as [|k1 [|k2 rest]] eqn:Es; try discriminate Hlen.
+  cbn [forallb] in Hs. apply andb_true_iff in Hs as [Hk1 Hs]. apply andb_true_iff in Hs as [Hk2 _].
+  unfold run_op in E. rewrite Ek, Es, Ef in E.
+  destruct (raw_heals truth t (env_apply (o_before o) (s_cache st)) k1 k2 rest Ht Hk1 Hk2) as [st0 [s0 [rm0 Hl]]].
+  rewrite Hl in E. inversion E; subst. cbn [ob_res ores_eqb]. apply bytes_eqb_refl.
+Qed.
+
+Lemma model_satisfies_oracle truth t c0 ops : t <> TConfig ->
+  check_C38 (mk t truth c0 ops (run_ops truth t (mkSt c0 false) ops)) = true.
+Proof.
+  intros Ht. apply check_C38_iff. cbn [c_truth c_ops c_obs c_cache0 c_type]. split; [|split].
+  - apply model_raw_ok. exact Ht.
+  - apply model_clean_ok. cbn [s_cache]. auto.
+  - apply model_heal_ok.
+Qed.
+
 (* ---------- non-vacuity ---------- *)
 Definition exB : bytes := [1;2;3;4;5]%N.
 Definition exC : bytes := [1;2;9]%N.
 Example c38_nonvacuous :
   (* corrupted cached index: detected, removed, re-downloaded, healed *)
-  load_raw (bytes_eqb exB) TIndex (mkSt (Some exC) false) no_renv [mkCall ENone (Some exB) ENone]
+  load_raw (bytes_eqb exB) TIndex (mkSt (Some exC) false) no_renv [mkCall ENone (Some exB) ENone false]
     = (ROk exB, mkSt (Some exB) true, [], true)
   (* second corruption of the same file: circuit breaker, no removal, error instead of wrong bytes *)
-  /\ load_raw (bytes_eqb exB) TIndex (mkSt (Some exC) true) no_renv [mkCall ENone (Some exB) ENone]
-    = (RInvalid exC, mkSt (Some exC) true, [mkCall ENone (Some exB) ENone], false)
+  /\ load_raw (bytes_eqb exB) TIndex (mkSt (Some exC) true) no_renv [mkCall ENone (Some exB) ENone false]
+    = (RInvalid exC, mkSt (Some exC) true, [mkCall ENone (Some exB) ENone false], false)
   (* cache cleared by another process right after the download: falls back to the backend *)
-  /\ load TSnapshot 2 1 None ENone [mkCall ENone (Some exB) EDel; mkCall ENone (Some exB) ENone]
+  /\ load TSnapshot 2 1 None ENone [mkCall ENone (Some exB) EDel false; mkCall ENone (Some exB) ENone false]
     = (LOk [2;3]%N, None, [])
   (* truncated cached pack: ranged read fails, never returns wrong bytes *)
-  /\ load TPackData 2 2 (Some exC) ENone [mkCall ENone (Some exB) ENone] = (LErr, Some exC, [mkCall ENone (Some exB) ENone])
-  /\ check_case (mk TIndex exB (Some exC) [mkOp ENone OpRaw [mkCall ENone (Some exB) ENone]] [mkObs (OOk exB) (Some exB) 1]) = 0
-  /\ check_case (mk TIndex exB (Some exC) [mkOp ENone OpRaw [mkCall ENone (Some exB) ENone]] [mkObs (OOk exC) (Some exC) 0]) = 2
-  /\ check_case (mk TPackData exB (Some exB) [mkOp ENone (OpLoad 2 1) [mkCall ENone (Some exB) ENone; mkCall ENone (Some exB) ENone]] [mkObs (OOk [2;4]%N) (Some exB) 0]) = 3.
+  /\ load TPackData 2 2 (Some exC) ENone [mkCall ENone (Some exB) ENone false] = (LErr, Some exC, [mkCall ENone (Some exB) ENone false])
+  /\ check_case (mk TIndex exB (Some exC) [mkOp ENone OpRaw [mkCall ENone (Some exB) ENone false]] [mkObs (OOk exB) (Some exB) 1]) = 0
+  /\ check_case (mk TIndex exB (Some exC) [mkOp ENone OpRaw [mkCall ENone (Some exB) ENone false]] [mkObs (OOk exC) (Some exC) 0]) = 2
+  /\ check_case (mk TPackData exB (Some exB) [mkOp ENone (OpLoad 2 1) [mkCall ENone (Some exB) ENone false; mkCall ENone (Some exB) ENone false]] [mkObs (OOk [2;4]%N) (Some exB) 0]) = 3
+  (* a download that fails after streaming a prefix leaves nothing in the cache *)
+  /\ load TIndex 0 0 None ENone [mkCall ENone (Some [1;2]%N) ENone true] = (LErr, None, [])
+  (* a Forget that removed nothing leaves the breaker unspent: a later corrupted copy must still be healed *)
+  /\ check_case (mk TIndex exB None
+        [mkOp ENone OpRaw [mkCall ENone None ENone false; mkCall ENone (Some exB) ENone false];
+         mkOp (EPut exC) OpRaw [mkCall ENone (Some exB) ENone false; mkCall ENone (Some exB) ENone false]]
+        [mkObs (OOk exB) (Some exB) 2; mkObs (OOk exB) (Some exB) 1]) = 0
+  /\ check_case (mk TIndex exB None
+        [mkOp ENone OpRaw [mkCall ENone None ENone false; mkCall ENone (Some exB) ENone false];
+         mkOp (EPut exC) OpRaw [mkCall ENone (Some exB) ENone false; mkCall ENone (Some exB) ENone false]]
+        [mkObs (OOk exB) (Some exB) 2; mkObs (OInvalid exC) (Some exC) 0]) = 4.
 Proof. vm_compute. repeat split. Qed.
